@@ -234,16 +234,21 @@ PROPS["C20"] = dict(
 
 EX_NAMES = ["knapsack", "misp", "max2sat", "mcp", "lcs", "golomb", "psp", "sop", "tsptw", "srflp", "talentsched", "alp"]
 PROPS["C16"] = dict(
-    modules=["DdoModel.Examples.Knapsack", "DdoModel.Examples.KnapsackDp", "DdoModel.Examples.KnapsackModel", "DdoModel.Engines.Ex", "DdoModel.Engines.ExModel", "DdoModel.Props.C16"],
+    modules=["DdoModel.Examples.Knapsack", "DdoModel.Examples.KnapsackDp", "DdoModel.Examples.KnapsackModel", "DdoModel.Examples.MispDp", "DdoModel.Examples.MispModel",
+             "DdoModel.Examples.Max2satDp", "DdoModel.Examples.Max2satModel", "DdoModel.Engines.Ex", "DdoModel.Engines.ExModel", "DdoModel.Props.C16"],
     theorems=["Ddo.Examples.KnapsackModel.wfRel", "Ddo.Examples.KnapsackModel.rubAdmissible", "Ddo.Examples.KnapsackModel.dantzig_adm", "Ddo.Examples.KnapsackModel.H_root",
               "Ddo.Examples.KnapsackModel.best_perm", "Ddo.Examples.KnapsackModel.knapsack_relaxed_ub",
+              "Ddo.Examples.MispModel.wfRel", "Ddo.Examples.MispModel.mwis_isMax", "Ddo.Examples.MispModel.best_eq_mwis", "Ddo.Examples.MispModel.H_eq_best_induced", "Ddo.Examples.MispModel.rub_adm",
+              "Ddo.Examples.MispModel.misp_relaxed_ub", "Ddo.Examples.MispModel.misp_exact_opt", "Ddo.Examples.MispModel.skip_sound", "Ddo.Examples.MispModel.lowRel",
+              "Ddo.Examples.Max2satModel.rub_admissible", "Ddo.Examples.Max2satModel.merge_ok", "Ddo.Examples.Max2satModel.tabOkB_iff",
               "Ddo.C16.knapsack_spec_adequate", "Ddo.C16.knapsack_spec_adequate_idx", "Ddo.C16.misp_spec_adequate", "Ddo.C16.mcp_spec_adequate", "Ddo.C16.max2sat_spec_adequate",
               "Ddo.C16.golomb_spec_adequate", "Ddo.C16.lcs_spec_adequate", "Ddo.C16.sop_spec_adequate", "Ddo.C16.srflp_spec_adequate", "Ddo.C16.talentsched_spec_adequate",
               "Ddo.C16.psp_spec_adequate", "Ddo.C16.tsptw_spec_adequate", "Ddo.C16.alp_spec_adequate", "Ddo.C16.alp_spec_infeasible",
               "Ddo.SpecUtil.mem_sublists", "Ddo.SpecUtil.mem_perms", "Ddo.SpecUtil.mem_tuples", "Ddo.SpecUtil.maxOf_eq_some", "Ddo.SpecUtil.minOf_eq_some"],
-    stated_not_proved=["DP model / relaxation of the eleven other examples as Lean models with well-formedness theorems (Potential / RubOk / MergeOk instances): only the knapsack example has one; the others are decided by correspondence with the exhaustive specifications alone",
+    stated_not_proved=["DP model / relaxation of the nine other examples (mcp, lcs, golomb, sop, tsptw, srflp, talentsched, psp, alp) as Lean models: they are decided by correspondence with the exhaustive specifications alone",
+                       "max2sat: exactness of the DP model (DpExactStmt) and TabOkOfInst (the hypotheses of rub_admissible / merge_ok follow from the instance) are stated only - both are evaluated on every instance by the driver; WfRel cannot be instantiated as is (next_variable reads the depth from the first state of the layer)",
                        "lcs (consequence of D5) and sop (D12) print a too small / too large objective on some instances: open known findings"],
-    level_text="Each shipped example program is run as built from the working tree (cargo build --examples, debug profile) on generated instance files of its own input format, for widths {1, 2, 3, default} x threads {1, 2, 4}, and the printed objective is compared by the Lean driver with an executable exhaustive specification of the underlying combinatorial problem written in Lean independently of the DP models (DdoModel/Examples/*.lean: all subsets / assignments / permutations of the tiny instance). Each of the twelve executable specifications is PROVED adequate (Props/C16.lean, 1650 lines): its value is v iff v is the optimum of a declarative statement of the problem - there is a feasible solution of objective v and every feasible solution is no better - with feasibility a plain predicate written without reference to the enumeration (sub-lists within capacity; independent sets; bipartitions; assignments; Golomb rulers, incl. the proof that the search bound 2^(n-1) loses nothing; common subsequences; precedence-respecting permutations; layouts; schedules; timed tours; runway / time assignments with a dominance argument for the greedy landing times), and -1 iff no feasible solution exists. Crashes, hangs (watchdog) and 'Aborted: true' are failures. For the knapsack example the DP model, merge operator, relaxation, Dantzig rough bound and ranking are additionally modelled in Lean (KnapsackDp.lean), tied POINTWISE to the example's own code - the example's source file is compiled into the harness by path and every next_variable / for_each_in_domain / transition / transition_cost / fast_upper_bound / merge / relax / compare answer along random walks is recomputed by the model (engine exmodel, which also checks on every instance the hypotheses of the theorem: the order chosen by Knapsack::new is a permutation sorted by exact ratio) - and proved well-formed (WfRel instance; Dantzig admissibility fully proved for ratio-sorted items with positive weights and non-negative profits), so that the diagram theorem applies: its relaxed diagrams never report less than the exhaustive optimum (knapsack_relaxed_ub). The checks found eight defects in the shipped examples on in-format instances (six repaired by fix: commits - knapsack, psp / sop / alp infeasible instances, talentsched, misp, max2sat, tsptw -, two recorded as open known findings: lcs = D5 showing through, sop = D12).",
+    level_text="Each shipped example program is run as built from the working tree (cargo build --examples, debug profile) on generated instance files of its own input format, for widths {1, 2, 3, default} x threads {1, 2, 4}, and the printed objective is compared by the Lean driver with an executable exhaustive specification of the underlying combinatorial problem written in Lean independently of the DP models (DdoModel/Examples/*.lean: all subsets / assignments / permutations of the tiny instance). Each of the twelve executable specifications is PROVED adequate (Props/C16.lean, 1650 lines): its value is v iff v is the optimum of a declarative statement of the problem - there is a feasible solution of objective v and every feasible solution is no better - with feasibility a plain predicate written without reference to the enumeration (sub-lists within capacity; independent sets; bipartitions; assignments; Golomb rulers, incl. the proof that the search bound 2^(n-1) loses nothing; common subsequences; precedence-respecting permutations; layouts; schedules; timed tours; runway / time assignments with a dominance argument for the greedy landing times), and -1 iff no feasible solution exists. Crashes, hangs (watchdog) and 'Aborted: true' are failures. For the knapsack example the DP model, merge operator, relaxation, Dantzig rough bound and ranking are additionally modelled in Lean (KnapsackDp.lean), tied POINTWISE to the example's own code - the example's source file is compiled into the harness by path and every next_variable / for_each_in_domain / transition / transition_cost / fast_upper_bound / merge / relax / compare answer along random walks is recomputed by the model (engine exmodel, which also checks on every instance the hypotheses of the theorem: the order chosen by Knapsack::new is a permutation sorted by exact ratio) - and proved well-formed; the same level-A tie exists for the MISP example (MispDp.lean: bitset states, the DYNAMIC variable order computed from the states of the layer, is_impacted_by; the example's private constructor and reader are reached without touching its source; MispModel.lean proves WfRel with no hypothesis on the instance - rough bound admissible, union merge a relaxation, the dynamic order harmless - hence misp_relaxed_ub, and misp_exact_opt on loop-free graphs, with the potential proved equal to the exhaustive specification on the induced subgraph) and for the MAX2SAT example (Max2satDp.lean mirrors the weight table with its offset / mk_lit indexing, the ordering, transition, cost, merge, relax and the bound tables; rub_admissible and merge_ok are theorems for weights of any sign; the driver additionally checks pointwise, by exhaustive enumeration over the remaining variables, that the bound the CODE returned dominates the best completion, that every merge + relax event over-approximates each merged-away state, and that every walk prefix plus its best completion equals the independent specification) (WfRel instance; Dantzig admissibility fully proved for ratio-sorted items with positive weights and non-negative profits), so that the diagram theorem applies: its relaxed diagrams never report less than the exhaustive optimum (knapsack_relaxed_ub). The checks found eight defects in the shipped examples on in-format instances (six repaired by fix: commits - knapsack, psp / sop / alp infeasible instances, talentsched, misp, max2sat, tsptw -, two recorded as open known findings: lcs = D5 showing through, sop = D12).",
     level_note="Partial: the theorem part covers the knapsack example only; for the other examples the deciding evidence is the correspondence with the exhaustive specification (a differential check, not a proof) - the property quantifies over twelve whole programs including parsers and float arithmetic, which are compared black-box. Instances are tiny by necessity (exhaustive enumeration); out-of-domain instances (generator tags ood_*: self-loops, duplicate clauses / edges, non-metric distances, unsorted aircraft, ...) are excluded. Golomb has no instance file (the 'file' is n). The knapsack model abstracts nothing any more since fix 4f57927 replaced the f64 floor by exact integer arithmetic (the abstraction was where the defect was).",
     engines=[dict(name="ex", label="ex_" + n, args=[n, "--per=24,300" if n == "golomb" else "--per=150,1500"]) for n in EX_NAMES] + [dict(name="exmodel")],
     trusted_base=TB_COMMON + ["the exhaustive specifications DdoModel/Examples/*.lean are the reference (written from the problem statements, independently of the DP models)", "process spawning, stdout parsing of the example binaries"],
